@@ -252,6 +252,33 @@ static void work_e(long lo, long hi, struct res *r, void *arg) {
     }
 }
 
+/* part g: exact extremal phrases: every word, the check word included, among the longest admissible words of its position (composed and
+ * decomposed length separately) - the phrases that fill the phrase buffer furthest; found by enumerating combinations of longest data
+ * words until the resulting check word is itself a longest word */
+static void extremal(struct res *r) {
+    int found_total = 0;
+    for (int li = 0; li < R_NLANG; li++) for (int form = 0; form < 2; form++) for (unsigned mask = 7; mask <= 7; mask++) {
+        const size_t *len = form ? RL[li].wlen : RL[li].wnfclen;
+        static unsigned SET[16][R_NW]; int ns[16]; size_t mx[16];
+        for (int p = 0; p < 16; p++) { mx[p] = 0; ns[p] = 0;
+            for (unsigned i = 0; i < R_NW; i++) { if (p == 2 && (i & 1)) continue; if (len[i] > mx[p]) mx[p] = len[i]; }
+            for (unsigned i = 0; i < R_NW; i++) { if (p == 2 && (i & 1)) continue; if (len[i] == mx[p]) SET[p][ns[p]++] = i; } }
+        double combos = 1; for (int p = 1; p < 16; p++) { combos *= ns[p]; if (combos > 1e9) combos = 1e9; }
+        long tries = combos < 300000 ? (long)combos : 300000; int found = 0; uint64_t ps = 0xE7 + (uint64_t)li * 17 + (uint64_t)form;
+        for (long attempt = 0; attempt < tries && found < 3; attempt++) {
+            unsigned c[16];
+            if (combos < 300000) { long y = attempt; for (int p = 1; p < 16; p++) { c[p] = SET[p][y % ns[p]]; y /= ns[p]; } }
+            else for (int p = 1; p < 16; p++) c[p] = SET[p][prng(&ps) % (unsigned)ns[p]];
+            c[0] = 0; unsigned c0 = ref_eval(c);
+            if (len[c0] != mx[0]) continue;
+            found++; found_total++;
+            struct kase k; k.li = li; k.mask = 7; k.coin = 0; ref_from_coeffs(c, &k.r);
+            if (run_case(&k, r, 0) == 0 && r->nsample < 2 && li == 2) res_sample(r, "exact extremal %s phrase (%s length maximal in all 16 positions)", RL[li].code, form ? "decomposed" : "composed");
+        }
+    }
+    res_sample(r, "%d exact extremal phrases over 10 languages x {composed, decomposed}", found_total);
+}
+
 int main(int argc, char **argv) {
     int a = common_args(argc, argv);
     ref_init(VERIF_ROOT); sec_mark_initial(); env_init(); inject(0);
@@ -284,6 +311,7 @@ int main(int argc, char **argv) {
     memset(r, 0, sizeof *r); par_run(G_thorough ? 200000 : 20000, work_e, NULL, r);
     out_part("e:created-and-crypted-seeds", r, CLS, "seeds obtained through create/crypt with PRNG tapes (additional, not a decision factor)");
     if (G_thorough) { memset(r, 0, sizeof *r); par_run(14L * 2048 * 2048, work_f, NULL, r); out_part("f:all value pairs of adjacent data words", r, CLS, "14 word pairs x 2048 x 2048, languages rotating with the position"); }
+    memset(r, 0, sizeof *r); extremal(r); out_part("g:exact extremal phrases (longest word in all 16 positions)", r, CLS, "the phrases that reach the computed maximum length to the byte");
     out_kv_int("backgrounds", NBG);
     out_end();
     return 0;
